@@ -333,6 +333,8 @@ func init() {
 					prop = fmt.Sprintf("FAIL C11 the passphrase of a nested secret-tagged message appears as text at level %d", lvl)
 				} else if res == "panic" {
 					prop = "FAIL C11 client panics"
+				} else if window > lvl {
+					prop = fmt.Sprintf("FAIL C11 the logger level is raised from %d to %d while the authentication request is written ;; FAIL C17 the shared logger level is raised during authentication", lvl, window)
 				}
 				cw.add(fmt.Sprintf("logwin %d", lvl), fmt.Sprintf("window=%d write-records-before-auth=%d", window, wb),
 					fmt.Sprintf("N log session level=%d scenario=%d bytes=%d", lvl, scenario, len(log)), prop)
